@@ -50,6 +50,11 @@ Proof.
   apply get_complex_terminates, H.
 Qed.
 
+Theorem C08_is_ground_variable_terminates : forall ss, chains_end ss -> forall id n,
+  exists r, chain ss (TVar id n) r /\
+    ev (fun f => is_ground_variable f (TVar id n) ss = Ok (match r with Some _ => true | None => false end)).
+Proof. exact is_ground_variable_terminates. Qed.
+
 (* (T2) *)
 Theorem C08_resolve_terminates : forall sigma ss t,
   plain_ss ss -> tok_ss ss -> solves sigma ss -> chains_end ss ->
@@ -143,3 +148,4 @@ Print Assumptions C08_unify_terminates.
 Print Assumptions C08_unify_can_diverge.
 Print Assumptions C08_follow_bound.
 Print Assumptions C08_constant_list_complex_terminate.
+Print Assumptions C08_is_ground_variable_terminates.
